@@ -1,0 +1,368 @@
+//go:build verif
+
+package message
+
+// Contracts for message ids (properties C06, C19; safety obligations also serve C09).
+// Layout of an id (written from NewID's documentation and the property statements):
+//   bytes 0..3   ssid[0] ^ ssid[1]                       (query-key prefix)
+//   bytes 4..7   MaxUint32 - (unix seconds - offset)      (inverted: later ids sort first)
+//   bytes 8..11  MaxUint32 - sequence number              (inverted)
+//   bytes 12..15 per-process nonce
+//   bytes 16..   the ssid words, big-endian, 4 bytes each (word 0 = contract)
+
+import (
+	"github.com/emitter-io/emitter/internal/security/hash"
+	vs "github.com/emitter-io/emitter/internal/verifspec"
+)
+
+func specBE32(d []byte, i int) uint32 {
+	return uint32(d[i])<<24 | uint32(d[i+1])<<16 | uint32(d[i+2])<<8 | uint32(d[i+3])
+}
+
+// the time base is the constant security.MinTime; nobody but the initialiser assigns it
+//@ global inv_offset
+func inv_offset() bool { return offset == 1514764800 }
+
+//@ verify init post=inv_offset props=C06,C19
+
+// specTime is the second-resolution creation time stored in an id.
+func specTime(id ID) int64 { return int64(4294967295-specBE32(id, 4)) + offset }
+
+// specWord is level i of the channel an id was created for (i = 0 is the contract).
+func specWord(id ID, i int) uint32 { return specBE32(id, fixed+4*i) }
+
+const specMaxID = 1 << 20 // ids are a few dozen bytes; the bound only keeps 4*len arithmetic away from overflow
+
+// ---- NewPrefix / SetTime / Time / Contract / HasPrefix
+
+//@ verify NewPrefix pre=pre_NewPrefix post=post_NewPrefix props=C06,C19
+func pre_NewPrefix(ssid Ssid) bool { return len(ssid) >= 2 }
+func post_NewPrefix(ssid Ssid, from int64, res0 ID) bool {
+	return len(res0) == 8 && specBE32(res0, 0) == ssid[0]^ssid[1] && specBE32(res0, 4) == 4294967295-uint32(from-offset)
+}
+
+//@ verify (ID).Time pre=pre_ID8 post=post_ID_Time props=C06,C19
+func pre_ID8(id ID) bool { return len(id) >= 8 }
+func post_ID_Time(id ID, res0 int64) bool { return res0 == specTime(id) }
+
+//@ verify (ID).SetTime pre=pre_ID8 post=post_ID_SetTime,post_ID_SetTime_frame props=C06,C19
+func post_ID_SetTime(id ID, t int64) bool {
+	// for every time the 32-bit second counter can hold, reading it back gives t
+	return t < offset || t > offset+4294967295 || specTime(id) == t
+}
+func post_ID_SetTime_frame(id ID, old_id ID) bool {
+	return vs.Forall(0, 4, func(i int) bool { return id[i] == old_id[i] }) &&
+		vs.Forall(8, len(id), func(i int) bool { return id[i] == old_id[i] })
+}
+
+//@ verify (ID).Contract pre=pre_ID20 post=post_ID_Contract props=C06,C19
+func pre_ID20(id ID) bool { return len(id) >= fixed+4 }
+func post_ID_Contract(id ID, res0 uint32) bool { return res0 == specWord(id, 0) }
+
+//@ verify (ID).HasPrefix pre=pre_ID_HasPrefix post=post_ID_HasPrefix props=C06
+func pre_ID_HasPrefix(id ID, ssid Ssid) bool { return len(id) >= 8 && len(ssid) >= 2 }
+func post_ID_HasPrefix(id ID, ssid Ssid, cutoff int64, res0 bool) bool {
+	return res0 == (specBE32(id, 0) == ssid[0]^ssid[1] && specTime(id) >= cutoff)
+}
+
+// ---- Ssid: word j of the result is the big-endian word at 16+4j
+
+//@ verify (ID).Ssid pre=pre_ID_Ssid post=post_ID_Ssid props=C19,C06
+//@ loop (ID).Ssid 0 inv inv_ID_Ssid modifies=ssid
+func pre_ID_Ssid(id ID) bool { return len(id) >= fixed && len(id) <= specMaxID }
+func inv_ID_Ssid(i int, ssid Ssid, id ID) bool {
+	return 0 <= i && i <= len(ssid) && len(ssid) == (len(id)-fixed)/4 &&
+		vs.Forall(0, i, func(j int) bool { return ssid[j] == specWord(id, j) })
+}
+func post_ID_Ssid(id ID, res0 Ssid) bool {
+	return len(res0) == (len(id)-fixed)/4 && vs.Forall(0, len(res0), func(j int) bool { return res0[j] == specWord(id, j) })
+}
+
+// ---- Match: the statement of C06. The query is a level-wise prefix of the stored channel, a wildcard level
+// matches any level, the contract (level 0) is compared like every other level, and the time lies in the window.
+
+func specLevelOK(id ID, query Ssid, j int) bool {
+	return query[j] == specWord(id, j) || query[j] == wildcard || query[j] == multiWildcard
+}
+
+//@ verify (ID).Match pre=pre_ID_Match post=post_ID_Match props=C06
+//@ loop (ID).Match 0 inv inv_ID_Match
+func pre_ID_Match(id ID, query Ssid) bool {
+	return len(id) >= fixed && len(id) <= specMaxID && len(query) <= specMaxID
+}
+func inv_ID_Match(i int, id ID, query Ssid) bool {
+	return -1 <= i && i < len(query) && 4*len(query) <= len(id)-fixed &&
+		vs.Forall(i+1, len(query), func(j int) bool { return specLevelOK(id, query, j) })
+}
+func post_ID_Match(id ID, query Ssid, from int64, until int64, res0 bool) bool {
+	return res0 == (4*len(query) <= len(id)-fixed &&
+		vs.Forall(0, len(query), func(j int) bool { return specLevelOK(id, query, j) }) &&
+		from <= specTime(id) && specTime(id) <= until)
+}
+
+// tenant isolation: a query of another contract never matches, unless that contract's id is one of the two
+// wildcard hashes (2 values in 2^32; recorded as an assumption in DESIGN section 9 #21)
+//@ lemma lemmaMatchContract pre=pre_lemmaMatchContract props=C06
+func pre_lemmaMatchContract(id ID, query Ssid) bool {
+	return pre_ID_Match(id, query) && len(query) >= 1 && query[0] != wildcard && query[0] != multiWildcard
+}
+func lemmaMatchContract(id ID, query Ssid, from, until int64) bool {
+	return !id.Match(query, from, until) || query[0] == specWord(id, 0)
+}
+
+// ---- ordering: later ids sort first (C19), which is what makes a forward scan return the most recent first (C06)
+
+// specLess: the 8 bytes a[4:12] are lexicographically smaller than b[4:12] (ids of one channel share bytes 0..3).
+func specKey(id ID) uint64 { return uint64(specBE32(id, 4))<<32 | uint64(specBE32(id, 8)) }
+
+//@ lemma lemmaOrder pre=pre_lemmaOrder props=C19,C06
+func pre_lemmaOrder(a, b ID) bool { return len(a) >= 12 && len(b) >= 12 }
+func lemmaOrder(a, b ID) bool {
+	// a later second, or the same second and a later sequence number (no wrap), gives a smaller key
+	later := specTime(a) > specTime(b) || (specTime(a) == specTime(b) && specBE32(a, 8) < specBE32(b, 8))
+	return !later || specKey(a) < specKey(b)
+}
+
+// ---- NewID: the id gives back the ssid it was created for (C19), carries the query-key prefix (C06)
+
+//@ verify NewID pre=pre_NewID post=post_NewID_len,post_NewID_words props=C19,C06
+//@ loop NewID 0 inv inv_NewID modifies=id
+func pre_NewID(ssid Ssid) bool { return len(ssid) >= 2 && len(ssid) <= 65536 }
+func inv_NewID(rangeindex int, ssid Ssid, id ID) bool {
+	return -1 <= rangeindex && rangeindex < len(ssid) && len(id) == fixed+4*len(ssid) &&
+		specBE32(id, 0) == ssid[0]^ssid[1] &&
+		vs.Forall(0, rangeindex+1, func(j int) bool { return specWord(id, j) == ssid[j] })
+}
+func post_NewID_len(ssid Ssid, res0 ID) bool {
+	return len(res0) == fixed+4*len(ssid) && specBE32(res0, 0) == ssid[0]^ssid[1]
+}
+func post_NewID_words(ssid Ssid, res0 ID) bool {
+	return vs.Forall(0, len(ssid), func(j int) bool { return specWord(res0, j) == ssid[j] })
+}
+
+// Ssid(NewID(s)) = s and Contract(NewID(s)) = s[0], over the two contracts above
+//@ lemma lemmaIDRoundTrip pre=pre_lemmaIDRoundTrip props=C19
+func pre_lemmaIDRoundTrip(ssid Ssid, id ID, out Ssid) bool {
+	return pre_NewID(ssid) && post_NewID_len(ssid, id) && post_NewID_words(ssid, id) && post_ID_Ssid(id, out)
+}
+func lemmaIDRoundTrip(ssid Ssid, id ID, out Ssid) bool {
+	return len(out) == len(ssid) && vs.Forall(0, len(ssid), func(j int) bool { return out[j] == ssid[j] }) && specWord(id, 0) == ssid[0]
+}
+
+// ---------------------------------------------------------------------------------------------------------
+// Counters: the per-connection subscription bookkeeping (properties C02, C08).
+// Abstract view: a function  key -> count  where key = Ssid.GetHashCode() of a held filter. The contracts are
+// stated per key, with every other key framed. That the key is only an XOR fold of the levels (a/b and b/a
+// collide) is isolated in lemmaHashCodeInjective below; the bookkeeping contracts hold whatever the hash is.
+
+
+// specRep: stored pointers are non-nil and pairwise distinct, every stored count is >= 1.
+func specRep(s *Counters) bool {
+	return s != nil && s.m != nil &&
+		vs.ForallKey(s.m, func(k uint32) bool { return !vs.Has(s.m, k) || (s.m[k] != nil && s.m[k].Counter >= 1) }) &&
+		vs.ForallKey(s.m, func(k1 uint32) bool {
+			return vs.ForallKey(s.m, func(k2 uint32) bool {
+				return !vs.Has(s.m, k1) || !vs.Has(s.m, k2) || k1 == k2 || s.m[k1] != s.m[k2]
+			})
+		})
+}
+
+// specCnt is the abstract count of key k (0 = not held).
+func specCnt(s *Counters, k uint32) int {
+	if !vs.Has(s.m, k) {
+		return 0
+	}
+	return s.m[k].Counter
+}
+func oldCnt(s *Counters, k uint32) int { return vs.Old(func() int { return specCnt(s, k) }) }
+
+func specMaxI(a, b int) int {
+	if a < b {
+		return b
+	}
+	return a
+}
+
+func pre_Counters(s *Counters, ssid Ssid) bool { return specRep(s) && len(ssid) >= 1 }
+func post_Rep(s *Counters) bool                 { return specRep(s) }
+
+// IncrementOnce: "first" exactly when the filter was not held; afterwards it is held exactly once more than never
+//@ verify (*Counters).IncrementOnce pre=pre_Counters post=post_IncrementOnce,post_Rep props=C02,C08 opaque=(Ssid).GetHashCode
+func post_IncrementOnce(s *Counters, ssid Ssid, res0 bool) bool {
+	h := ssid.GetHashCode()
+	return res0 == (oldCnt(s, h) == 0) && specCnt(s, h) == specMaxI(oldCnt(s, h), 1) &&
+		vs.ForallKey(s.m, func(k uint32) bool { return k == h || specCnt(s, k) == oldCnt(s, k) })
+}
+
+// Increment: counts every call; "first" exactly when it was not held
+//@ verify (*Counters).Increment pre=pre_Counters_Inc post=post_Increment,post_Rep props=C02,C08 opaque=(Ssid).GetHashCode
+func pre_Counters_Inc(s *Counters, ssid Ssid) bool {
+	return specRep(s) && len(ssid) >= 1 && specCnt(s, ssid.GetHashCode()) < 1<<62
+}
+func post_Increment(s *Counters, ssid Ssid, res0 bool) bool {
+	h := ssid.GetHashCode()
+	return res0 == (oldCnt(s, h) == 0) && specCnt(s, h) == oldCnt(s, h)+1 &&
+		vs.ForallKey(s.m, func(k uint32) bool { return k == h || specCnt(s, k) == oldCnt(s, k) })
+}
+
+// Decrement: "last" exactly when the count reaches 0, and then the entry is gone; an absent filter is a no-op
+//@ verify (*Counters).Decrement pre=pre_Counters post=post_Decrement,post_Rep props=C02,C08 opaque=(Ssid).GetHashCode
+func post_Decrement(s *Counters, ssid Ssid, res0 bool) bool {
+	h := ssid.GetHashCode()
+	return res0 == (oldCnt(s, h) == 1) && specCnt(s, h) == specMaxI(oldCnt(s, h)-1, 0) &&
+		vs.ForallKey(s.m, func(k uint32) bool { return k == h || specCnt(s, k) == oldCnt(s, k) })
+}
+
+// The bookkeeping key must tell apart any two different filters a connection can hold under one contract -
+// otherwise a second subscribe is acknowledged but not made, and unsubscribing one filter orphans the other
+// (C02), which then leaks on close (C08). GetHashCode is an XOR fold of the levels, so this FAILS for permuted
+// or repeated levels: a/b vs b/a, a/a vs b/b. Known finding, isolated here; see /verif/known_findings.json.
+//@ lemma lemmaFilterKeyInjective pre=pre_lemmaFilterKey props=C02,C08
+func pre_lemmaFilterKey(a, b Ssid) bool { return len(a) == 3 && len(b) == 3 && a[0] == b[0] }
+func lemmaFilterKeyInjective(a, b Ssid) bool {
+	return (a[1] == b[1] && a[2] == b[2]) || a.GetHashCode() != b.GetHashCode()
+}
+
+// ---------------------------------------------------------------------------------------------------------
+// Subscription trie (property C01). BOUNDED stand-ins: the real NewTrie/NewTrieMQTT, Subscribe, Lookup (with the
+// recursive lookupEmitter / lookupMqtt), Unsubscribe (with the recursive orphan) and Count are executed
+// symbolically from an empty trie for a fixed SHAPE of operations, with every level word and every subscriber id
+// symbolic - so equal, permuted, repeated and wildcard levels are all covered by the solver, not sampled. The
+// oracle is the matching rule of the property statement. These are labelled bounded in the evidence and are
+// never counted as proved obligations.
+
+//@ opaque github.com/emitter-io/emitter/internal/security/hash.OfString
+
+type specSub struct{ id string }
+
+func (s *specSub) ID() string            { return s.id }
+func (s *specSub) Type() SubscriberType  { return SubscriberDirect }
+func (s *specSub) Send(m *Message) error { return nil }
+
+// one level of a filter against one level of a channel: equal, or the filter level is '+'
+func specLevel(f, q uint32) bool { return f == q || f == wildcard }
+
+// a channel is made of literal levels; the contract word is not itself a wildcard hash (DESIGN section 9 #21);
+// no share groups in these shapes
+func specPlainChannel(c, q0, q1, q2 uint32) bool {
+	return c != wildcard && c != multiWildcard && q1 != wildcard && q1 != multiWildcard && q2 != wildcard && q2 != multiWildcard &&
+		q1 != share
+}
+
+//@ bounded standinTrieEmitter1 pre=pre_standinTrie1 props=C01 bound=1-subscriber,filter-depth-1,channel-depth-2,emitter-mode
+func pre_standinTrie1(c, a, q0, q1, q2 uint32) bool { return specPlainChannel(c, q0, q1, q2) && a != share }
+func standinTrieEmitter1(c, a, q0, q1, q2 uint32, id string) bool {
+	t := NewTrie()
+	s1 := &specSub{id: id}
+	t.Subscribe(Ssid{c, a}, s1)
+	r := t.Lookup(Ssid{q0, q1, q2}, nil)
+	want := c == q0 && specLevel(a, q1) // the filter is a level-wise prefix of the channel
+	ok1 := r.Contains(s1) == want && r.Size() == specB2I(want) && t.Count() == 1
+	t.Unsubscribe(Ssid{c, a}, s1)
+	return ok1 && t.Count() == 0 && len(t.root.children) == 0 // the index is empty again
+}
+
+func specB2I(b bool) int {
+	if b {
+		return 1
+	}
+	return 0
+}
+
+//@ bounded standinTrieEmitter2 pre=pre_standinTrie2 props=C01 bound=1-subscriber,filter-depth-2,channel-depth-2,emitter-mode
+func pre_standinTrie2(c, a, b, q0, q1, q2 uint32) bool {
+	return specPlainChannel(c, q0, q1, q2) && a != share
+}
+func standinTrieEmitter2(c, a, b, q0, q1, q2 uint32, id string) bool {
+	t := NewTrie()
+	s1 := &specSub{id: id}
+	t.Subscribe(Ssid{c, a, b}, s1)
+	r := t.Lookup(Ssid{q0, q1, q2}, nil)
+	want := c == q0 && specLevel(a, q1) && specLevel(b, q2)
+	ok1 := r.Contains(s1) == want && r.Size() == specB2I(want) && t.Count() == 1
+	// a duplicate subscribe is not counted twice; an unsubscribe of a filter that is not held changes nothing
+	t.Subscribe(Ssid{c, a, b}, s1)
+	ok2 := t.Count() == 1
+	t.Unsubscribe(Ssid{c, a}, s1)
+	ok3 := t.Count() == 1
+	t.Unsubscribe(Ssid{c, a, b}, s1)
+	return ok1 && ok2 && ok3 && t.Count() == 0 && len(t.root.children) == 0
+}
+
+// mqtt mode: same depth, '+' matches one level, a trailing '#' matches one or more further levels
+//@ bounded standinTrieMqtt2 pre=pre_standinTrieMqtt2 props=C01 bound=1-subscriber,filter-depth-2,channel-depth-2,mqtt-mode
+func pre_standinTrieMqtt2(c, a, b, q0, q1, q2 uint32) bool {
+	return specPlainChannel(c, q0, q1, q2) && a != share && a != multiWildcard // '#' only as the last level
+}
+func standinTrieMqtt2(c, a, b, q0, q1, q2 uint32, id string) bool {
+	t := NewTrieMQTT()
+	s1 := &specSub{id: id}
+	t.Subscribe(Ssid{c, a, b}, s1)
+	r := t.Lookup(Ssid{q0, q1, q2}, nil)
+	want := c == q0 && specLevel(a, q1) && (specLevel(b, q2) || b == multiWildcard)
+	ok1 := r.Contains(s1) == want && r.Size() == specB2I(want)
+	t.Unsubscribe(Ssid{c, a, b}, s1)
+	return ok1 && t.Count() == 0 && len(t.root.children) == 0
+}
+
+//@ bounded standinTrieMqtt1 pre=pre_standinTrie1 props=C01 bound=1-subscriber,filter-depth-1,channel-depth-2,mqtt-mode
+func standinTrieMqtt1(c, a, q0, q1, q2 uint32, id string) bool {
+	t := NewTrieMQTT()
+	s1 := &specSub{id: id}
+	t.Subscribe(Ssid{c, a}, s1)
+	r := t.Lookup(Ssid{q0, q1, q2}, nil)
+	// a shorter filter matches a deeper channel only through a trailing '#' (one or more further levels)
+	want := c == q0 && a == multiWildcard
+	ok1 := r.Contains(s1) == want
+	t.Unsubscribe(Ssid{c, a}, s1)
+	return ok1 && t.Count() == 0 && len(t.root.children) == 0
+}
+
+// ---------------------------------------------------------------------------------------------------------
+// Subscribers: a set of subscribers keyed by hid = hash.OfString(ID()). Proved for every map and every subscriber
+// (unbounded): a duplicate add neither replaces nor double-counts, remove is symmetric, nobody else is touched.
+// (Two connections whose ids collide in the 32-bit hash are the same member: DESIGN section 8 item 4.)
+
+func specHid(v Subscriber) uint32 { return hash.OfString(v.ID()) }
+
+func pre_Subscribers(s *Subscribers) bool { return s != nil && *s != nil }
+
+func specHadKey(s *Subscribers, k uint32) bool { return vs.Old(func() bool { return vs.Has(*s, k) }) }
+func specOldAt(s *Subscribers, k uint32) Subscriber {
+	return vs.Old(func() Subscriber { return (*s)[k] })
+}
+
+// specOthersSame: every key other than h is as it was
+func specOthersSame(s *Subscribers, h uint32) bool {
+	return vs.ForallKey(*s, func(k uint32) bool {
+		return k == h || (vs.Has(*s, k) == specHadKey(s, k) && (!vs.Has(*s, k) || (*s)[k] == specOldAt(s, k)))
+	})
+}
+
+//@ verify (*Subscribers).AddUnique pre=pre_Subscribers post=post_AddUnique_nil,post_AddUnique props=C01
+func post_AddUnique_nil(s *Subscribers, value Subscriber, res0 bool) bool {
+	return value != nil || (!res0 && specOthersSame(s, 0) && vs.Has(*s, 0) == specHadKey(s, 0))
+}
+func post_AddUnique(s *Subscribers, value Subscriber, res0 bool) bool {
+	if value == nil {
+		return true
+	}
+	h := specHid(value)
+	return res0 == !specHadKey(s, h) && vs.Has(*s, h) && specOthersSame(s, h) &&
+		((res0 && (*s)[h] == value) || (!res0 && (*s)[h] == specOldAt(s, h)))
+}
+
+//@ verify (*Subscribers).Remove pre=pre_Subscribers post=post_Remove props=C01
+func post_Remove(s *Subscribers, value Subscriber, res0 bool) bool {
+	if value == nil {
+		return !res0 && specOthersSame(s, 0) && vs.Has(*s, 0) == specHadKey(s, 0)
+	}
+	h := specHid(value)
+	return res0 == specHadKey(s, h) && !vs.Has(*s, h) && specOthersSame(s, h)
+}
+
+//@ verify (*Subscribers).Contains pre=pre_Subscribers_Contains post=post_Contains props=C01
+func pre_Subscribers_Contains(s *Subscribers, value Subscriber) bool { return s != nil && *s != nil && value != nil }
+func post_Contains(s *Subscribers, value Subscriber, res0 bool) bool {
+	return res0 == vs.Has(*s, specHid(value)) && specOthersSame(s, 0) && vs.Has(*s, 0) == specHadKey(s, 0)
+}
